@@ -128,7 +128,7 @@ theorem C16_site_render_ghost_line (g : GhostData) (ctx : ImplContext) (m : Memb
 
 /-- C16-2 (the three `err_ty.unwrap()` sites): not reached when the instruction carries an error type -/
 theorem C16_site_err_ty (ctx : ImplContext) (t : TypePath) (h : ctx.structAttr.errTy = some t) :
-    errTyPath ctx = .ok t.path := by
+    ∃ ts, errTyPath ctx = .ok ts := by
   simp [errTyPath, h]
 
 /-- C16-5 for the outermost shape: a union is answered with a diagnostic -/
